@@ -377,3 +377,49 @@ def coqchk(run, files):
     if rc == 0:
         cache.write_text(txt)
     return rc == 0, txt
+
+
+def build_verifprobe(run):
+    """build /repo/cmd/verifprobe with -tags verif (L1 function probe); returns its path"""
+    b = run.scratch / "bin"
+    b.mkdir(exist_ok=True)
+    rc, out, err = sh(["go", "build", "-tags", "verif", "-o", str(b / "verifprobe"), "./cmd/verifprobe"],
+                      cwd=REPO, env=go_env(), timeout=900)
+    if rc != 0:
+        raise CheckBroken("go build -tags verif ./cmd/verifprobe failed: " + err[-3000:])
+    return b / "verifprobe"
+
+
+def go_quote(s):
+    """Go-quoted string literal for the verifprobe line protocol"""
+    out = ['"']
+    for ch in s:
+        o = ord(ch)
+        if ch == '"':
+            out.append('\\"')
+        elif ch == "\\":
+            out.append("\\\\")
+        elif ch == "\n":
+            out.append("\\n")
+        elif ch == "\t":
+            out.append("\\t")
+        elif ch == "\r":
+            out.append("\\r")
+        elif o < 32 or o == 127:
+            out.append("\\x%02x" % o)
+        else:
+            out.append(ch)
+    out.append('"')
+    return "".join(out)
+
+
+def probe_calls(probe, calls):
+    """calls: list of (function, [args]); returns list of decoded JSON results"""
+    inp = "".join(fn + "".join("\t" + go_quote(a) for a in args) + "\n" for fn, args in calls)
+    rc, out, err = sh([str(probe)], input=inp, timeout=1200)
+    if rc != 0:
+        raise CheckBroken("verifprobe failed: " + err[-2000:])
+    res = [json.loads(l) for l in out.splitlines()]
+    if len(res) != len(calls):
+        raise CheckBroken("verifprobe: %d results for %d calls" % (len(res), len(calls)))
+    return res
